@@ -1,6 +1,7 @@
 #![no_main]
-// Coverage-guided campaign for C16: the fuzzer's bytes drive the SAME proptest strategy as the property check
-// (pass-through RNG), the SAME interpreter and oracle run in-process; AddressSanitizer is the extra monitor.
+// Coverage-guided campaign for C16: the fuzzer's bytes are decoded (serde byte decoder, then Prop::sanitize) into the SAME
+// case type that the property check generates; the SAME interpreter and oracle run in-process; AddressSanitizer is the
+// extra monitor.
 use libfuzzer_sys::fuzz_target;
 use sds_verif::fuzzing;
 use sds_verif::props::c16::C16;
